@@ -1421,14 +1421,14 @@ class C03(OutcomeCheck):
     kinds = ("forbidden",)
     cap = 30000
     ref_mode = ("rc11s", "rc11w")
-    technique = "executable RC11 (weak instance: SeqCst accesses demoted, C++20 release sequences) as upper-bound oracle + whole-run correspondence; proved: exact candidate sets (CoWR/CoRR and SeqCst exclusion for arbitrary states and thread counts, RMW reads a mo-maximal store), coherence over SEQUENCES of loads/stores of any number of threads (edges of the modification order are never lost, assert_ne never fires, CoRR/CoWR/CoRW/CoWW), RMW-atomicity fixpoint of the store rule, release/acquire clock hand-over; the RMW-atomicity closure after loads is covered by computed exhaustive searches"
+    technique = "executable RC11 (weak instance: SeqCst accesses demoted, C++20 release sequences) as upper-bound oracle + whole-run correspondence; proved: exact candidate sets (CoWR/CoRR and SeqCst exclusion for arbitrary states and thread counts, RMW reads a mo-maximal store), coherence and RMW atomicity over SEQUENCES of loads / stores / RMWs of any number of threads for the model's current functions (an invariant carrying a ranking of the live stores in which every RMW follows its source: edges of the modification order are never lost, assert_ne never fires, CoRR/CoWR/CoRW/CoWW, no store between an RMW and its source), release/acquire clock hand-over"
     rule = C02.rule
     level_text = ("Every outcome of every explored iteration of the litmus core (and of a few programs with tens of thousands of executions, run on the implementation only) must be allowed by the "
                   "weakest documented model (RC11.v weak instance: SeqCst accesses behave as acquire/release as loom's README says, SC fences kept, C++20 release sequences). Forbidden outcomes are "
                   "violations. Three defects of the modification-order bookkeeping found this way or while proving were repaired (fixed entries 189e88b, c0421c4, 01ecff8). Proved: exact candidate sets, "
-                  "coherence over sequences of operations of any number of threads for the load rule of c0421c4 (transferred to the current functions on RMW-free runs), release/acquire, RMW release "
+                  "coherence and RMW atomicity over sequences of operations of any number of threads for the current functions (AtomicClosure; ring wrap-around excluded), release/acquire, RMW release "
                   "sequences and fences transfer at least the clocks C11 demands.")
-    level_note = "partial: consistency of all explored executions is oracle-checked on the litmus core"
+    level_note = "coherence and atomicity of the modification-order bookkeeping are theorems about L (one cell, no ring wrap-around); the full RC11 consistency of explored executions (SC fences, release sequences across cells) is oracle-checked on the litmus core"
     det_family = lambda self, ctx: gen.fam_litmus_core(ctx.tier)
     rnd_family = rnd("c03r", "AF", nq=100, nt=1000, nthreads=(2, 3), maxops=3)
     heavy_family = lambda self, ctx: gen.fam_litmus_heavy(ctx.tier)
